@@ -9,6 +9,10 @@ namespace BVM
 
 def u32 (x : Nat) : Nat := x % 4294967296
 
+/-- `a - b` in `uint32_t` arithmetic, for `a, b < 2^32` (written without adding the modulus to a variable
+    term, which the kernel's unary `Nat.add` cannot compare cheaply) -/
+def subU32 (a b : Nat) : Nat := if b ≤ a then a - b else 4294967296 - (b - a)
+
 /-- one scalar argument value: a number (integers, enumerations; reals as their bit pattern)
     or a C string (bytes without the terminating NUL) -/
 inductive Leaf
